@@ -8,6 +8,7 @@ import SkgVerif.Model.CrossVal
 import SkgVerif.Model.Fit
 import SkgVerif.Gen.Tables
 import SkgVerif.Gen.DirectionExec
+import SkgVerif.Gen.FitSigmaExec
 import SkgVerif.Model.CacheMachine
 import SkgVerif.Model.SpaceTime
 import SkgVerif.Model.Propagate
@@ -223,6 +224,12 @@ def handleC05 : List String → Option String
       let sg ← if sg.trimAscii.toString == "none" then some none else (parseRats sg).map some
       let r := nanFilter3 x y sg
       some s!"ok|{fmtList fmtRat r.1}|{fmtList fmtRat r.2.1}|{fmtOptList r.2.2}"
+  | ["sigma", name, xs] => do
+      let xs ← parseFloats xs
+      let f ← match name.trimAscii.toString with
+        | "linear" => some Gen.sigma_linearF | "exp" => some Gen.sigma_expF
+        | "sqrt" => some Gen.sigma_sqrtF | "sq" => some Gen.sigma_sqF | _ => none
+      some s!"ok|{fmtList fmtFloat (xs.map f)}"
   | ["bounds", names, un, mx, my] => do
       let un := un.trimAscii.toString == "1"
       let mx ← parseRat mx.trimAscii.toString
